@@ -114,7 +114,7 @@ func c11(r *rep.Run) {
 	if r.Thorough() {
 		r.SetBudget(1800e9)
 	}
-	r.Rule = "(1) explicit-state BFS over registration histories: initial states = every injective pre-population of <= 3 of the names {a,b,c} with keys from {-32768,-1,0,1,2,3,255,256,32767}; transitions = the real GetOrRegisterKey(name) for name in {a,b,c,d}; states (key maps) are deduplicated canonically; invariants on every transition: returned key = stored key, no existing assignment changes, the map stays injective. Scaled families: maps pre-populated with keys 1..n (n around 64, 128, 256 and every n <= 70, with and without one hole) followed by three registrations. (2) for every reached layout in which a..d are all registered x {undefined-variable mode off,on}: compile the positional expression (+ (* a 1) (* b 10) (* c 100) (* d 1000)) and evaluate it through NewCtxFromVars (library picks slice or map fetcher), NewMapVarFetcher, NewSliceVarFetcher (when the layout permits) and the package-level Eval with ExtendConf + extra unrelated bindings; registration also through RegVarAndOp, alone and in one or two batches on top of every injective pre-keying of <= 2 of {a, z, e2} with keys from {-1, 0..10, 255, 256}. (3) variable names that resemble literals/keywords/operators (True, FALSE, T, nil, fi, mod, in, ...) and the one-node infix program (a lone variable) under 7 keys x registered / undefined-variable mode / both, bound to an int, both booleans and a string; (4) every convertible Go type named in the statement as the bound value, through each fetcher constructor. Oracle: arithmetic identity / normalised value. non-trivial = layouts with a key outside 0..255 or with a hole below the largest key"
+	r.Rule = "(1) explicit-state BFS over registration histories: initial states = every injective pre-population of <= 3 of the names {a,b,c} with keys from {-32768,-1,0,1,2,3,255,256,32767}; transitions = the real GetOrRegisterKey(name) for name in {a,b,c,d}; states (key maps) are deduplicated canonically; invariants on every transition: returned key = stored key, no existing assignment changes, the map stays injective. Scaled families: maps pre-populated with keys 1..n (n around 64, 128, 256 and every n <= 70, with and without one hole) followed by three registrations. (2) for every reached layout in which a..d are all registered x {undefined-variable mode off,on}: compile the positional expression (+ (* a 1) (* b 10) (* c 100) (* d 1000)) and evaluate it through NewCtxFromVars (library picks slice or map fetcher), NewMapVarFetcher, NewSliceVarFetcher (when the layout permits) and the package-level Eval with ExtendConf + extra unrelated bindings; registration also through RegVarAndOp, alone and in one or two batches on top of every injective pre-keying of <= 2 of {a, z, e2} with keys from {-1, 0..10, 255, 256}. (3) variable names that resemble literals/keywords/operators (True, FALSE, T, nil, fi, mod, in, ...) and the one-node infix program (a lone variable) under 7 keys x registered / undefined-variable mode / both, bound to an int, both booleans and a string; (3b) contexts built BETWEEN registrations on one config (every ordered triple of distinct keys from {-3,0,1,2,7,255,256,300}, explicit writes and GetOrRegisterKey); (4) every convertible Go type named in the statement as the bound value, through each fetcher constructor. Oracle: arithmetic identity / normalised value. non-trivial = layouts with a key outside 0..255 or with a hole below the largest key"
 	r.Assume = []string{"keys are drawn from a boundary alphabet of the int16 range, not all 65536 values", "names a..d stand for arbitrary distinct identifiers"}
 
 	keys := []eval.VariableKey{-32768, -1, 0, 1, 2, 3, 255, 256, 32767}
@@ -306,6 +306,7 @@ func c11(r *rep.Run) {
 	c11RegVarAndOp(r, &evals)
 	c11Types(r, &evals)
 	c11SpecialNames(r, &evals)
+	c11InterleavedContexts(r, &evals)
 	r.Add(int64(len(seen)), transitions+evals, evals, evals+transitions, nontrivial)
 	r.Finish()
 }
@@ -689,7 +690,7 @@ func c11Types(r *rep.Run, n *int64) {
 // of every kind and in undefined-variable mode, through every context
 // constructor: a variable evaluates to the value bound to its name.
 func c11SpecialNames(r *rep.Run, n *int64) {
-	names := []string{"True", "TRUE", "False", "FALSE", "tRuE", "T", "F", "nil", "fi", "DNE", "mod", "version", "in", "not", "x1", "_", "a.b", "名前"}
+	names := []string{"True", "TRUE", "False", "FALSE", "tRuE", "T", "F", "nil", "fi", "DNE", "mod", "version", "in", "not", "x1", "_", "a.b", "名前", "slot.0", "geo.3d_x", "a.b.c", "x.y_1", "_x", "x_", "a1.b2", "q.2x"}
 	keys := []eval.VariableKey{-1, 0, 1, 7, 255, 256, 32767}
 	for _, name := range names {
 		for _, key := range keys {
@@ -729,7 +730,7 @@ func c11SpecialNames(r *rep.Run, n *int64) {
 					for _, pg := range progs {
 						c2 := eval.CopyConfig(cfg)
 						if pg.infix {
-							if opNamed || name == "a.b" || name == "名前" || name == "_" {
+							if opNamed || strings.Contains(name, ".") || name == "名前" || name == "_" {
 								continue // identifier shapes the infix lexer is not asked about here
 							}
 							c2.CompileOptions[eval.InfixNotation] = true
@@ -766,4 +767,82 @@ func c11SpecialNames(r *rep.Run, n *int64) {
 			}
 		}
 	}
+}
+
+// c11InterleavedContexts: contexts are created BETWEEN registrations on one
+// config object: register a (explicit key k1, written into the exported map),
+// build a context and evaluate; register b (k2), build another context and
+// evaluate; register c (k3 or GetOrRegisterKey), again. Every ordered triple
+// of distinct keys from a set that crosses the slice/map fetcher boundary.
+func c11InterleavedContexts(r *rep.Run, n *int64) {
+	keys := []eval.VariableKey{-3, 0, 1, 2, 7, 255, 256, 300}
+	exprs := []string{"(+ (* a 1) 0)", "(+ (* a 1) (* b 10))", "(+ (* a 1) (* b 10) (* c 100))"}
+	names := []string{"a", "b", "c"}
+	var hist int64
+	for _, k1 := range keys {
+		for _, k2 := range keys {
+			for _, k3 := range keys {
+				if k1 == k2 || k2 == k3 || k1 == k3 {
+					continue
+				}
+				for undef := 0; undef < 2; undef++ {
+					for lastVia := 0; lastVia < 2; lastVia++ { // 0: explicit key, 1: GetOrRegisterKey
+						cfg := eval.NewConfig()
+						if undef == 1 {
+							cfg.CompileOptions[eval.AllowUndefinedVariable] = true
+						}
+						ks := []eval.VariableKey{k1, k2, k3}
+						vals := map[string]interface{}{}
+						var want int64
+						hist++
+						for step := 0; step < 3; step++ {
+							if step == 2 && lastVia == 1 {
+								eval.GetOrRegisterKey(cfg, names[step])
+							} else {
+								cfg.VariableKeyMap[names[step]] = ks[step]
+							}
+							vals[names[step]] = int64(step + 2)
+							w := int64(step + 2)
+							for x := 0; x < step; x++ {
+								w *= 10
+							}
+							want += w
+							d := map[string]interface{}{"keys_in_order_of_registration": fmt.Sprint(ks), "last_via_GetOrRegisterKey": lastVia == 1, "allow_undefined": undef == 1, "step": step + 1, "map": fmt.Sprint(cfg.VariableKeyMap)}
+							e, err := eval.Compile(cfg, exprs[step])
+							if err != nil {
+								r.Violate("compile", "interleaved", sprintf("%s does not compile after registering %s: %v", exprs[step], names[step], err), d)
+								break
+							}
+							ctxs := map[string]func() *eval.Ctx{
+								"NewCtxFromVars": func() *eval.Ctx { return eval.NewCtxFromVars(cfg, vals) },
+							}
+							minK, maxK := eval.VariableKey(32767), eval.VariableKey(-32768)
+							for _, v := range cfg.VariableKeyMap {
+								if v < minK {
+									minK = v
+								}
+								if v > maxK {
+									maxK = v
+								}
+							}
+							if minK >= 0 && maxK < 256 {
+								ctxs["NewSliceVarFetcher"] = func() *eval.Ctx { return &eval.Ctx{VariableFetcher: eval.NewSliceVarFetcher(cfg, vals)} }
+							}
+							for cname, mk := range ctxs {
+								var v eval.Value
+								var eerr error
+								p, site := drive.Fence(func() { v, eerr = e.Eval(mk()) })
+								atomic.AddInt64(n, 1)
+								if p != nil || eerr != nil || v != eval.Value(want) {
+									d["context"] = cname
+									r.Violate("wrong-variable", "interleaved"+cname, sprintf("after a context had been built from this config and %s was registered next, %s evaluates %s to %v/%v (panic %v at %s), expected %d", names[step], cname, exprs[step], v, eerr, p, site, want), d)
+								}
+							}
+						}
+					}
+				}
+			}
+		}
+	}
+	r.Cov["interleaved_context_histories"] = hist
 }
